@@ -389,6 +389,75 @@ fn mode_interleave(rng: &mut Rng, n_cases: u64, max_len: u64, noise_keys: u64) {
     }
 }
 
+
+/// C07 reclamation: unbounded stream of fresh keys with a bounded active set; the number of
+/// physically stored entries must stay within the bound implied by the store's guaranteed
+/// cleanup points (ghost map of every key's last requested lifetime)
+fn mode_reclaim(rng: &mut Rng, n_cases: u64, max_len: u64) {
+    for case in 0..n_cases {
+        // cleanup-enabled configurations only
+        let cfg = match case % 3 {
+            0 => Cfg::Periodic { capacity: *rng.pick(&[0usize, 16, 1000]), interval_ns: *rng.pick(&[0u64, 1_000_000, 1_000_000_000, 60_000_000_000]) },
+            1 => Cfg::Adaptive { capacity: *rng.pick(&[0usize, 16, 1000]), min_ns: *rng.pick(&[0u64, 1_000_000, 1_000_000_000]),
+                                 max_ns: *rng.pick(&[1_000_000u64, 5_000_000_000, 300_000_000_000]), max_ops: *rng.pick(&[1usize, 7, 100, 100_000]) },
+            _ => Cfg::Probabilistic { capacity: *rng.pick(&[0usize, 16, 1000]), prob: *rng.pick(&[1u64, 2, 3, 7, 64, 1000]) },
+        };
+        let mut lim = Lim::new(&cfg);
+        let snap0 = lim.snapshot();
+        let wall = time_to_ns(std::time::SystemTime::now());
+        let mut now: i128 = wall + 10_000_000_000 + rng.range(0, 1_000_000_000) as i128;
+        let (b, count, period) = pick_limits(rng);
+        let e = emission_ns(count, period) as i128;
+        let n = rng.range(10, max_len as i64) as usize;
+        let active = *rng.pick(&[1u64, 3, 20]);
+        let w: i128 = match cfg { Cfg::Periodic { interval_ns, .. } => interval_ns as i128,
+                                  Cfg::Adaptive { min_ns, max_ns, .. } => (5_000_000_000i128).max(min_ns as i128).max(max_ns as i128), _ => 0 };
+        let mut ghost: HashMap<u64, i128> = HashMap::new();
+        let mut steps: Vec<Step> = Vec::new();
+        let mut viol: Vec<Viol> = Vec::new();
+        let mut next_key = 2000u64;
+        let mut max_len_seen = 0usize;
+        let mut t_last_sweep: i128 = i128::MIN;
+        for i in 0..n {
+            now += match rng.below(5) { 0 => 0, 1 => e, 2 => rng.next() as i128 % (2 * e * b as i128 + 1), 3 => rng.range(0, 1_000_000) as i128, _ => (w + 1).min(100_000_000_000) };
+            now = now.min(YEAR2100);
+            // bounded active set: the last `active` keys; a new key replaces the oldest now and then
+            if rng.chance(1, 2) { next_key += 1; }
+            let key = next_key - rng.below(active.min(next_key - 1999));
+            let q = match rng.below(4) { 0 => 0, 1 => b, _ => 1 };
+            let req = Req { key, b, count, period, q, now };
+            let snap_before = lim.snapshot();
+            let st = do_step(&mut lim, &req);
+            if lim.dead { steps.push(st); break; }
+            let wrote = st.ttl.is_some();
+            if let (Some(ttl), Some(true)) = (st.ttl, st.out.allowed()) { ghost.insert(key, now + ttl as i128); }
+            if wrote {
+                // guaranteed cleanup points
+                let due = match cfg {
+                    Cfg::Periodic { .. } => now >= snap_before[0],
+                    Cfg::Adaptive { max_ops, .. } => now >= snap_before[0] || (snap_before[3] + 1) >= max_ops as i128,
+                    Cfg::Probabilistic { prob, .. } => (snap_before[0] + 1) % (prob as i128) == 0,
+                };
+                if due && !st.cleaned {
+                    viol.push(Viol { prop: "C07", step: i, what: format!("guaranteed cleanup point reached (store state before the write {:?}) but no sweep ran", snap_before) });
+                }
+                if st.cleaned { t_last_sweep = now; }
+                let bound = match cfg {
+                    // everything that survived the last sweep (expiry > its time) plus what was written since
+                    Cfg::Probabilistic { .. } => ghost.values().filter(|x| **x > t_last_sweep || **x >= now).count(),
+                    _ => ghost.values().filter(|x| **x >= now - w).count(),
+                };
+                if st.len > bound {
+                    viol.push(Viol { prop: "C07", step: i, what: format!("{} entries stored after a write at t={now}, but only {} keys have a lifetime reaching t-W (W={w}ns)", st.len, bound) });
+                }
+            }
+            max_len_seen = max_len_seen.max(st.len);
+            steps.push(st);
+        }
+        emit("reclaim", &cfg, &snap0, &steps, &viol, &format!(",\"keys_used\":{},\"max_entries\":{}", next_key - 1999, max_len_seen));
+    }
+}
+
 /// C08: boundary lattice over i64^4, fresh and pre-populated keys
 fn mode_lattice(rng: &mut Rng, n_random: u64, stride: u64) {
     let giga: i64 = 1_000_000_000;
@@ -487,6 +556,7 @@ fn main() {
         "hist" => mode_hist(&mut rng, n, max_len, arg_u64("--probes", 1) == 1),
         "insert" => mode_insert(&mut rng, n, max_len),
         "interleave" => mode_interleave(&mut rng, n, max_len, arg_u64("--noise", 3000)),
+        "reclaim" => mode_reclaim(&mut rng, n, max_len),
         "lattice" => mode_lattice(&mut rng, arg_u64("--random", 2000), arg_u64("--stride", 1)),
         _ => { eprintln!("unknown mode"); std::process::exit(2); }
     }
